@@ -21,7 +21,7 @@ CHECKS = {
     "C06": dict(
         engine="E3", cat="model_checking",
         technique="step, jump and long_jump matrices extracted from the code on all basis states; J = T^(2^(n/2)) and L = T^(2^(3n/4)) decided by repeated squaring for all 2^n states; exhaustive low-weight conformance replay and direct commutation checks on the real code",
-        text="For each of the 12 jump-capable types the three GF(2) matrices are extracted from the implementation and the jump identities are decided on that model for every state; predictions are replayed on all weight-2 (and weight-3 where stated) states, and the linearity-free relations jump/step/long_jump commute are enumerated directly on the code. Added since: states whose jump / long_jump image has a special word pattern (zero word, equal words, sum zero), solved on the extracted matrices and replayed on the code. Rounds 5-6: the jump polynomial is recovered from the extracted step matrix; states are solved so that (a) the accumulator after every word boundary of the polynomial and (b) the running state T^i s at every step i = 1..n-1 has a special word pattern, and jump / long_jump from them are compared with the matrix power. Round 8: states that jump / long_jump leave unchanged in one word (kernel of a word row of J xor I), solved on the extracted matrices and replayed; a jump that panics counts only where stepping from the same state does not.",
+        text="For each of the 12 jump-capable types the three GF(2) matrices are extracted from the implementation and the jump identities are decided on that model for every state; predictions are replayed on all weight-2 (and weight-3 where stated) states, and the linearity-free relations jump/step/long_jump commute are enumerated directly on the code. Added since: states whose jump / long_jump image has a special word pattern (zero word, equal words, sum zero), solved on the extracted matrices and replayed on the code. Rounds 5-6: the jump polynomial is recovered from the extracted step matrix; states are solved so that (a) the accumulator after every word boundary of the polynomial and (b) the running state T^i s at every step i = 1..n-1 has a special word pattern, and jump / long_jump from them are compared with the matrix power. Round 8: states that jump / long_jump leave unchanged in one word (kernel of a word row of J xor I), solved on the extracted matrices and replayed; a jump that panics counts only where stepping from the same state does not; the commutation relations are decided on the next 8 outputs and still run (on from_seed objects) when no state can be injected.",
         note="linearity beyond the replayed weights; state image via the crates' serde feature validated by from_seed(image) == generator",
         ref="4/C06"),
     "C07": dict(
@@ -51,7 +51,7 @@ CHECKS = {
     "C10": dict(
         engine="E1", cat="model_checking",
         technique="exhaustive enumeration of history states (depth 2-3, all start offsets, 3+k seeds); every state cloned and every pair of states compared with ==, equal pairs run under all continuations of depth 2",
-        text="For 20 generator types and the three public cores, every reachable state of the bounded history space is cloned and the clone compared with a replayed original under all continuations; every pair of states (millions) is compared with == and equal pairs must have identical futures; IsaacArray equality is probed slot by slot. Added since: Clone::clone_from into a fresh generator and into a generator in another state, states at every buffer index, serde-image neighbours (every single-byte change of a state's image: a neighbour that compares equal must have the same future), native-width twins, clones around call counts 2^8 / 2^16, clones at rare stream events, 2^17 / 2^18-state birthday pair sets for Hc128Core. Rounds 5-6: every == is accompanied by != (must be its negation); block cores keep a persistent results buffer for word reads, get a fresh one per block in fill_bytes, and a clone starts with a fresh buffer. Round 7: comparisons that panic inside the crate are reported, not crashed on. Round 8: the block cores are also placed at an address that is 4 but not 8 modulo 8 (a wrapper with a leading u32), so clones / comparisons of cores are exercised at both alignments.",
+        text="For 20 generator types and the three public cores, every reachable state of the bounded history space is cloned and the clone compared with a replayed original under all continuations; every pair of states (millions) is compared with == and equal pairs must have identical futures; IsaacArray equality is probed slot by slot. Added since: Clone::clone_from into a fresh generator and into a generator in another state, states at every buffer index, serde-image neighbours (every single-byte change of a state's image: a neighbour that compares equal must have the same future), native-width twins, clones around call counts 2^8 / 2^16, clones at rare stream events, 2^17 / 2^18-state birthday pair sets for Hc128Core. Rounds 5-6: every == is accompanied by != (must be its negation); block cores keep a persistent results buffer for word reads, get a fresh one per block in fill_bytes, and a clone starts with a fresh buffer. Round 7: comparisons that panic inside the crate are reported, not crashed on. Round 8: the block cores are also placed at an address that is 4 but not 8 modulo 8 (a wrapper with a leading u32), so clones / comparisons of cores are exercised at both alignments; the all-pairs sweep has a wall budget (240 s quick / 1 h thorough), a cut is reported as a cap with the pairs actually compared.",
         note="bounded history depth and continuation depth; states rebuilt by replay (no reliance on Clone)",
         ref="4/C10"),
     "C11": dict(
